@@ -1,5 +1,5 @@
 # replay of a bounded stand-in violation (C11): re-run native/c11_compilers.py
 import sys
-print("gaussian_merge n=4 gates=[('S2gate', (1, 0)), ('Dgate', (0,)), ('Sgate', (2,)), ('Rgate', (3,)), ('Vgate', (1,)), ('Dgate', (2,)), ('Rgate', (3,)), ('Rgate', (2,)), ('BSgate', (1, 3)), ('Kgate', (1,)), ('Dgate', (3,)), ('Kgate', (1,)), ('Sgate', (0,)), ('Sgate', (3,))]: with the opaque gates interpreted as fixed unitaries the compiled program [('GaussianTransform', [0, 1]), ('GaussianTransform', [2]), ('Dgate', [0]), ('Kgate', [1]), ('Dgate', [2]), ('Vgate', [1]), ('Kgate', [1]), ('GaussianTransform', [1, 3]), ('Dgate', [3]), ('MeasureFock', [0, 1, 2, 3])] computes something else (max difference 1.27)")
+print("passive n=4 modes=[2, 1, 0, 3] gates=[('BSgate', (2, 3)), ('Rgate', (0,)), ('PassiveChannel', (1, 0, 3)), ('Rgate', (2,)), ('MZgate', (1, 3)), ('Rgate', (3,)), ('MZgate', (3, 1)), ('MZgate', (2, 0)), ('Interferometer', (3, 2, 1)), ('BSgate', (1, 0)), ('BSgate', (2, 1)), ('Rgate', (0,))]: compiled program leaves a different Gaussian state (max difference 0.0882)")
 print('REPLAY-VIOLATION')
 sys.exit(1)
